@@ -77,10 +77,34 @@ structure Cfg where
   failNum : Nat         -- health check FailNum of the cluster, 0 = no health-check configuration
   subs : List Sub       -- bal.subClusters (sorted by name)
 
+/-- verdict of one HandleRequestFinish filter: `other` = Redirect / Response / Close (they stop the chain but
+    FinishReq only reacts to Finish); `panic` = the filter panics -/
+inductive FinV where
+  | goon | finish | other | panic
+  deriving DecidableEq, Inhabited
+
 structure ReqSpec where
   isGET : Bool          -- outreq.Method == "GET"
   noBody : Bool         -- checkRequestWithoutBody(outreq)
   script : List Attempt
+  finish : List FinV := []     -- verdicts of the HandleRequestFinish filters, in chain order (missing = goon)
+  pre : Option Nat := none     -- some act: a HandleBeforeLocation filter ended the request (ServeHTTP returned
+                               -- action `act` before clusterInvoke was reached: no backend was selected)
+
+/-- number of HandleRequestFinish filters the harness registers -/
+def finFilters : Nat := 4
+
+/-- FinishReq's callback block: `retVal := hl.FilterResponse(..)` runs the filters until one does not go on;
+    `case BfeHandlerFinish: action = closeAfterReply; return`.  Result: (action, filters run, panicked).
+    Whatever this returns, the deferred `DecConnNum` of FinishReq runs afterwards. -/
+def finChain (vs : List FinV) : Nat → Nat → Nat × Nat × Bool
+  | 0, ran => (0, ran, false)
+  | left + 1, ran =>
+    match vs.getD ran .goon with
+    | .goon => finChain vs left (ran + 1)
+    | .finish => (1, ran + 1, false)
+    | .other => (0, ran + 1, false)
+    | .panic => (0, ran + 1, true)
 
 /-- global backend id -/
 def bid (sub idx : Nat) : Nat := sub * 8 + idx
@@ -395,7 +419,7 @@ inductive Step where
 
 inductive StepOut where
   | inv (k : Nat) (r : LR)
-  | fin (k : Nat) (conn : Nat → Int)
+  | fin (k : Nat) (act ran : Nat) (panicked : Bool) (conn : Nat → Int)
   | bad
 
 structure G where
@@ -417,6 +441,13 @@ def G.init (cfg : Cfg) (nreq : Nat) : G :=
 def entryLS (g : G) (rq : ReqSpec) (ch : List Nat) : LS :=
   ⟨g.bs, g.conn, none, 0, .none, false, rq.script, ch, []⟩
 
+/-- what step `i<k>` runs: clusterInvoke, unless a HandleBeforeLocation filter made ServeHTTP return
+    (action `act`) before clusterInvoke was reached -/
+def invoke (pol : Policy) (cfg : Cfg) (rq : ReqSpec) (g : G) (ch : List Nat) : LR :=
+  match rq.pre with
+  | some act => ⟨none, .nil, act, entryLS g rq ch, []⟩
+  | none => loop pol cfg rq 20 (entryLS g rq ch) .nil
+
 /-- one step; `ch` = the oracle values for this step (used by `inv` only) -/
 def step (pol : Policy) (cfg : Cfg) (reqs : List ReqSpec) (g : G) (st : Step) (ch : List Nat) : G :=
   match st with
@@ -425,7 +456,7 @@ def step (pol : Policy) (cfg : Cfg) (reqs : List ReqSpec) (g : G) (st : Step) (c
     | some rq, some r =>
       if r.invoked then { g with outs := .bad :: g.outs }
       else
-        let lr := loop pol cfg rq 20 (entryLS g rq ch) .nil
+        let lr := invoke pol cfg rq g ch
         { bs := lr.st.bs, conn := lr.st.conn,
           rqs := setRq g.rqs k { tb := lr.st.tb, invoked := true, done := false },
           outs := .inv k lr :: g.outs }
@@ -435,9 +466,11 @@ def step (pol : Policy) (cfg : Cfg) (reqs : List ReqSpec) (g : G) (st : Step) (c
     | some r =>
       if !r.invoked || r.done then { g with outs := .bad :: g.outs }
       else
+        let fc := finChain ((reqs.getD k ⟨false, false, [], [], none⟩).finish) finFilters 0
+        -- deferred in FinishReq: runs on every way out of the callback block (early return on Finish, panic)
         let conn' := decTb g.conn r.tb
         { g with conn := conn', rqs := setRq g.rqs k { tb := none, invoked := true, done := true },
-                 outs := .fin k conn' :: g.outs }
+                 outs := .fin k fc.1 fc.2.1 fc.2.2 conn' :: g.outs }
     | none => { g with outs := .bad :: g.outs }
 
 def runSched (pol : Policy) (cfg : Cfg) (reqs : List ReqSpec) : G → List Step → List (List Nat) → G
